@@ -392,6 +392,20 @@ fn lc_case(max: u32, i: u64) -> Option<CkCase> {
 pub fn sections() -> Vec<Box<dyn Section>> {
     vec![
         Box::new(crate::engine::Enumerated {
+            name: "algorithm-names-near-the-inline-capacity".into(),
+            total: Box::new(|_| crate::chars::names_near_inline_capacity().len() as u64),
+            make: Box::new(|_, i| {
+                let alg = crate::chars::names_near_inline_capacity()[i as usize].clone();
+                if alg.contains(',') {
+                    return None;
+                }
+                Some(CkCase { ops: vec![COp::InsertRawUpper("zz".into(), vec![1]), COp::Insert(alg, vec![0xab]), COp::Insert("a".into(), vec![2])], orders: vec![1, 0, 1, 1, 0, 2, 1, 0], spelling: vec![] })
+            }),
+            oracle: o_case,
+            required: vec!["algorithm-non-ascii"],
+            complete: true,
+        }),
+        Box::new(crate::engine::Enumerated {
             name: "algorithm-names-over-length-changing-case-letters".into(),
             total: Box::new(|t: Tier| 2 * crate::props::c10::names_total(crate::chars::length_changing_alphabet(), t.pick(3, 4))),
             make: Box::new(|t: Tier, i| lc_case(t.pick(3, 4), i)),
